@@ -837,7 +837,11 @@ func reifyDuration(
 	var d time.Duration
 	var err error
 
-	// a setting produced by variable expansion converts like the value it stands for
+	// a setting produced by variable expansion converts like the value it stands for;
+	// the references followed are active only during this conversion
+	parentFields := opts.opts.activeFields
+	opts.opts.activeFields = newFieldSet(parentFields)
+	defer func() { opts.opts.activeFields = parentFields }()
 	for {
 		dyn, ok := val.(*cfgDynamic)
 		if !ok {
